@@ -54,6 +54,24 @@ def gen_cases(tier, seed):
                 c = cl.H(cfgv).call(inv.callid, inv.args, inv.blobs, [(10, rep)]).case(5000, '%s / %s' % (inv.name, tag))
                 EXPECT[c.line()] = (tag == 'matching')
                 yield c
+        # the same checks hold for the frame that follows one or two 'response pending' frames: the answer of another service with the
+        # right echoes, or the right service with a wrong echo, is not the answer
+        if inv.callid != 5 and inv.sid is not None:
+            pend = bytes([0x7F, inv.sid, 0x78])
+            late = [(bytes([v]) + p[1:], 'service id after pending') for v in (0x7E, 0x50, 0x51, 0x62, 0x6E, 0x74, 0x76, 0x77) if v != p[0]]
+            late += [(p[:off] + bytes([p[off] ^ 0x01]) + p[off + 1:], 'echo byte %d after pending' % off) for off in inv.echo]
+            late.append((p, 'matching after pending'))
+            for rep, tag in late:
+                for npend in (1, 2):
+                    for unx in (1, 0):
+                        cfgv = list(cl.DEFAULT_CFG)
+                        for s, v in inv.cfg.items():
+                            cfgv[s] = v
+                        cfgv[cl.EX_UNX] = unx
+                        reps = [(10 + 5 * k, pend) for k in range(npend)] + [(100, rep)]
+                        c = cl.H(cfgv).call(inv.callid, inv.args, inv.blobs, reps).case(5000, '%s / %s' % (inv.name, tag))
+                        EXPECT[c.line()] = tag.startswith('matching')
+                        yield c
     # the composite unlock: a well-formed seed reply with a real seed but the echo of another level, then a correct reply to the key
     # request (should it be sent); and a correct seed reply followed by a key reply echoing another level
     for inv in invocations():
@@ -206,7 +224,7 @@ def oracle(c, r):
         return None
     if accepted:
         cfgv, ops = cl.case_ops(c)
-        return ('mismatch-accepted/%s' % name, 'reply %s (%s) was accepted as the answer' % (ops[0][4][0][1].hex(), c.tag.split(' / ')[1]))
+        return ('mismatch-accepted/%s' % name, 'reply %s (%s) was accepted as the answer' % (ops[0][4][-1][1].hex(), c.tag.split(' / ')[1]))
     if d['kind'] == 'returned' and not (d['resp']['unexpected'] or not d['resp']['valid'] or not d['resp']['positive']):
         return ('mismatch-unflagged/%s' % name, 'mismatching reply handed back without a flag')
     return None
